@@ -115,6 +115,15 @@ def runStrict (S : Sys σ) : σ → List Tid → Option σ
     | some s' => runStrict S s' ts
     | none => none
 
+/-- Run a schedule, skipping entries that cannot move or that the decidable guard rejects
+    (builds `ReachableR` witnesses). -/
+def runG (S : Sys σ) (okb : σ → Tid → Bool) : σ → List Tid → σ
+  | s, [] => s
+  | s, t :: ts => if okb s t then
+      match S.step s t with
+      | some s' => runG S okb s' ts
+      | none => runG S okb s ts
+    else runG S okb s ts
 end Sys
 
 end Gp.Pool
